@@ -10,7 +10,7 @@ from . import c01
 
 RULE = ("synthetic: PSD matrices built by construction from a latent factor model so that C_off,off = Q diag(sigma) Q^T "
         "has a prescribed spectrum (well-conditioned, geometric decay, exact rank deficiency) with a >= x4 gap around the "
-        "cut-off rc*sigma_max; n_on 1..4 sub-apertures, n_off 1..10; rc in {0} u [1e-12, 0.5]; float64 and float32. "
+        "cut-off rc*sigma_max; n_on 1..4 sub-apertures, n_off 1..10; rc in {0} u [1e-12, 0.5]; float64 and float32, integer-valued matrices also as int64/int32. "
         "end-to-end: C01 geometries pushed through CovarianceMatrix, cut-off placed in the widest spectral gap; duplicate "
         "class: WFS 0 made identical to an off-axis WFS. Oracles: normal equations on the retained subspace, nothing "
         "leaks through discarded modes, direct optimality J(R+Delta) - J(R) = tr(Delta C Delta^T) >= 0 for drawn "
@@ -40,6 +40,8 @@ def synth_cases(draw):
         # with other off-axis measurements (s_on = a, s_1 = a + b, s_2 = b ...)
         sig = np.ones(m)
         keep = m
+        # loadings are multiples of 1/4, so 16 C is integer-valued: such matrices are also handed over with an integer dtype
+        dtype = draw(st.sampled_from(["float64", "float32", "int64", "int32"]))
     elif spec == "well":
         sig = np.linspace(1.0, draw(st.sampled_from([0.5, 0.1, 0.01])), m)
         keep = m
@@ -80,6 +82,8 @@ def build_synth(case):
         if not Mon.any():
             Mon[0, 0] = 1.0
     E = case["noise"] * rng.normal(size=(p, p))
+    if str(case["dtype"]).startswith("int"):
+        Moff, Mon, E = 4.0 * Moff, 4.0 * Mon, 0.0 * E
     Coff = Moff @ Moff.T
     Coff = 0.5 * (Coff + Coff.T)
     Conoff = Mon @ Moff.T
@@ -146,6 +150,7 @@ def synth_body(ctx, case):
     rank_def = bool(np.any(sig == 0))
     ctx.case(case, nontrivial=case["n_off"] > n_on or rank_def or rc > 0, classes=[case["spec"], dtype, "rc0" if rc == 0 else "rc_pos", "rank_deficient" if rank_def else "full_rank"])
     Cin = C.astype(dtype)
+    ctx.require(bool(np.all(Cin == C)) or not dtype.startswith("int"), "harness: integer covariance not exactly representable")
     C0 = Cin.copy()
     kw = {} if (rc == 0 and case["seed"] % 2 == 0) else {"svd_conditioning": rc}
     R = SC().create_tomographic_covariance_reconstructor(Cin, n_on, **kw)
